@@ -415,6 +415,8 @@ func (s *spanScreen) rawWriteSpan(x int, y int, sp Span, cr ChangeReason) {
 	if y >= s.size.Y || x+sp.Width > s.size.X {
 		panic(fmt.Sprintf("rawWriteSpan out of range: %v  %v,%v,%v %v\n", s.size, x, y, x+sp.Width, sp.Width))
 	}
+	// A wide character whose tail reaches past the written cells is blanked there too: announce those cells.
+	tail := wideTailAt(&s.lines[y], x+sp.Width, s.textMode)
 	replaceRange(&s.lines[y], x, sp.Width, sp, s.textMode)
 	if lineCellWidth(&s.lines[y]) > s.size.X {
 		// The write started inside a wide character, which was kept: the row grew.
@@ -422,7 +424,35 @@ func (s *spanScreen) rawWriteSpan(x int, y int, sp Span, cr ChangeReason) {
 		s.frontend.RegionChanged(Region{Y: y, Y2: y + 1, X: x, X2: s.size.X}, cr)
 		return
 	}
-	s.frontend.RegionChanged(Region{Y: y, Y2: y + 1, X: x, X2: x + sp.Width}, cr)
+	s.frontend.RegionChanged(Region{Y: y, Y2: y + 1, X: x, X2: x + sp.Width + tail}, cr)
+}
+
+// wideTailAt returns how many cells starting at x belong to a wide character
+// that begins before x (0 when x is a character boundary).
+func wideTailAt(line *spanLine, x int, mode TextReadMode) int {
+	idx, offset := findSpanAtX(line, x)
+	if offset == 0 || idx >= len(line.spans) || line.spans[idx].Text == "" {
+		return 0
+	}
+	text := []byte(line.spans[idx].Text)
+	state := -1
+	cellPos := 0
+	for len(text) > 0 && cellPos < offset {
+		_, consumed, width, newState, ok := stepTextCluster(text, state, mode)
+		if !ok || consumed <= 0 {
+			break
+		}
+		if width < 0 {
+			width = 0
+		}
+		if offset > cellPos && offset < cellPos+width {
+			return cellPos + width - offset
+		}
+		cellPos += width
+		text = text[consumed:]
+		state = newState
+	}
+	return 0
 }
 
 func (s *spanScreen) rawWriteRune(x int, y int, r rune, width int, cr ChangeReason) {
